@@ -46,7 +46,7 @@ def gen(rng, tier):
                        ("c15", ("boundary-scalars", "v-sweep", "length:", "mutated", "malformed", "utf8-straddle")), ("c13", ("malformed", "structure", "fuzz-number", "missing-field")),
                        ("c09", ("int-boundary", "bytesN", "wrong-kind", "structural", "huge-declared-size", "undefined-unreached", "fixed-array", "repeated", "domain-violation", "recursive-type")), ("c20", ("repeated", "foreign", "wrong-type", "no-domain-type")),
                        ("c11", ("sig.v", "chain:2^25", "bit-boundary")), ("c19", ("malformed", "mutated")), ("c12", ("fail", "L:unsupported", "bad-length", "short-read", "vanity-fail")),
-                       ("c18", ("long-prefix-no-match", "bad-prefix", "empty-prefix")), ("c04", ("boundary", "length:", "text-of-a-key", "pubkey-shape")), ("c05", ("boundary", "text-like"))]:
+                       ("c18", ("long-prefix-no-match", "bad-prefix", "empty-prefix", "prefix-parse")), ("c04", ("boundary", "length:", "text-of-a-key", "pubkey-shape")), ("c05", ("boundary", "text-like"))]:
         mod = importlib.import_module("vlib.props." + name)
         for c in mod.gen(rng, "quick"):
             if any(t.startswith(k) for t in c.tags for k in keep) and (rng.random() < frac or name == "c18"):
